@@ -1207,6 +1207,19 @@ class Interp:
                 return self.call_function(mf, a, "__module__")
             finally:
                 self._stack.pop()
+        # … or a module-level function of the analysed package called by its bare name (imported helper): follow it too
+        if self.auto_private and recv is None and isinstance(f, ast.Name) and meth not in frame and self.idx is not None and len(self._stack) < 12:
+            cands = [v for (rel, nm), v in getattr(self.idx, "module_funcs", {}).items() if nm == meth and not rel.startswith("csvpath/cli/")]
+            if len(cands) == 1:
+                a = dict(kwargs)
+                a["__pos__"] = args
+                if any(isinstance(n, (ast.Yield, ast.YieldFrom)) for n in ast.walk(cands[0].node)):
+                    return GenV(self, lambda fi=cands[0], a=a: self.call_function(fi, a, "__module__"))
+                self._stack.append(meth)
+                try:
+                    return self.call_function(cands[0], a, "__module__")
+                finally:
+                    self._stack.pop()
         # ignored calls (logging, timing)
         for pat in self.ignore:
             if pat.endswith("."):
